@@ -525,12 +525,8 @@ func trimWhitespace(t *Tree, s string) string {
 			str = trimLeadWS(str, quotePos)
 		}
 
-		if len(str) == 0 {
-			continue
-		}
-
-		// Handle a CRLF line-break
-		if rune(str[len(str)-1]) == '\r' {
+		// Handle a CRLF line-break; an empty line keeps its line-break
+		if len(str) > 0 && str[len(str)-1] == '\r' {
 			cr = 1
 		}
 
